@@ -83,6 +83,9 @@ pub struct KeyModel {
     /// a remove was issued while a write of this key was still in flight (see DESIGN C01 finding);
     /// names the shape of the race
     pub race: Option<&'static str>,
+    /// a requested remove left the key's complete file on disk with no delete task and no write parked:
+    /// nothing will ever delete it, yet the removal is complete as far as the caller can tell
+    pub gone_expected: bool,
     /// values whose disk write failed and whose failure notification has not been handled yet
     pub failed_pending: Vec<u32>,
 }
@@ -99,6 +102,7 @@ impl KeyModel {
             file: FileState::Absent,
             disk_err_armed: false,
             race: None,
+            gone_expected: false,
             failed_pending: vec![],
         }
     }
